@@ -29,7 +29,7 @@ PROFILE = S.GENERAL.but(p_raise=12, p_critical=30, p_edge=40, p_nested=24, p_wil
 
 
 def budget(tier):
-    return dict(examples=3000 if tier == 'quick' else 100000)
+    return dict(examples=6000 if tier == 'quick' else 100000)
 
 
 def strategy(tier):
